@@ -32,6 +32,7 @@ from elementpath.xpath_context import XPathContext, XPathSchemaContext
 from elementpath.sequence_types import is_sequence_type, match_sequence_type
 from elementpath.schema_proxy import AbstractSchemaProxy
 from elementpath.xpath1 import XPath1Parser
+from elementpath.helpers import OPTIONAL_COMMENTS
 
 
 class XPath2Parser(XPath1Parser):
@@ -313,7 +314,7 @@ class XPath2Parser(XPath1Parser):
             'symbol': symbol,
             'nargs': 1,
             'label': 'constructor function',
-            'pattern': r'\b%s(?=\s*\(|\s*\(\:.*\:\)\()' % symbol,
+            'pattern': r'\b%s(?=' % symbol + OPTIONAL_COMMENTS + r'\((?!\:))',
             'lbp': bp,
             'rbp': bp,
             'nud': nud_,
